@@ -29,6 +29,12 @@ pub fn all() -> Vec<Entry> {
     // and `decide` runs into "all candidates have been assigned false".
     out.push(from_json("D23 unpropagated soft rejection", include_str!("../corpus/d23_unpropagated_soft_rejection.json")));
 
+    // D24: the rejection of a soft requirement is propagated at the start of the NEXT soft run; a
+    // conflict (the next soft solvable cannot be installed) interrupts that propagation half-way,
+    // only the next run's decision is undone and the remaining clauses watching the rejected
+    // solvable are never visited; a requires clause ends up with both watches on rejected solvables.
+    out.push(from_json("D24 interrupted propagation of a soft rejection", include_str!("../corpus/d24_interrupted_propagation.json")));
+
     // D13: a soft run learns a clause whose other literals sit at level 1, back-jumps below the
     // level at which the soft run started, re-decides the hard part by a different route and lands
     // exactly on the starting level again ("already decided").
